@@ -339,6 +339,15 @@ class Prop:
             cs.append(Case('corj %s || %s' % (want, _spec('{\n  "k": %s // {or: ["%s", "integer"]}\n}' % (lit, fmt))), 'string-formats'))
             cs.append(Case('corj %s || %s' % (want, _spec('[\n  %s // {or: [{type: "boolean"}, {type: "%s"}]}\n]' % (lit, fmt))), 'string-formats'))
             cs.append(Case('corj %s || %s' % (want, _spec('%s // {type: "@f"}' % lit, {'@f': '%s // {type: "%s"}' % (SAMPLE[fmt], fmt)})), 'string-formats'))
+        # regex: the expression is searched in the decoded string (not anchored unless it says so)
+        for rx, text, valid in [('^a', 'abc', True), ('^b', 'abc', False), ('[0-9]+', 'x1', True), ('^[0-9]+$', 'x1', False), ('^[0-9]+$', '123', True), ('a|b', 'c', False),
+                                ('a|b', 'xbx', True), ('.', '', False), ('^$', '', True), ('^.{3}$', 'aé€', True), ('^.{3}$', 'aé', False), ('\\\\d{2}', 'a12', True), ('\\\\d{2}', 'a1b2', False),
+                                ('^[a-c]+$', 'abcabc', True), ('^[a-c]+$', 'abd', False), ('(?i)^x$', 'X', True), ('^x$', 'X', False), ('^a.c$', 'a\\nc', False), ('\\\\.', 'a.b', True), ('\\\\.', 'ab', False)]:
+            lit = _json.dumps(text.replace('\\n', '\n'), ensure_ascii=False)
+            want = 'ok' if valid else 'value'
+            cs.append(Case('corj %s || %s' % (want, _spec('%s // {regex: "%s"}' % (lit, rx))), 'regex-rule'))
+            cs.append(Case('corj %s || %s' % (want, _spec('{\n  "k": %s // {or: [{type: "string", regex: "%s"}, "integer"]}\n}' % (lit, rx))), 'regex-rule'))
+            cs.append(Case('corj %s || %s' % (want, _spec('%s // {type: "@r"}' % lit, {'@r': '/%s/' % rx.replace('\\\\', '\\')})), 'regex-rule'))
         # empty containers with an `or` rule: the example's json type has to be among the alternatives' - whatever was
         # checked before (other members, registered types, references to enum / any types)
         from props.c10 import spec
@@ -479,6 +488,6 @@ class Prop:
                  'the rules inside `or` rule-sets, inside user types, and inside user types referenced from `or` and from other types',
             trusted=['Coq 8.16.1 kernel', 'model coq/Model/RuleSem.v tied by correspondence on the verdict class (accepted / rejected for a value reason)',
                      'text printer and the exact-rational oracle in lib/props/c01.py', 'extraction, driver, harness'],
-            assumptions=['regex is not modelled; the built-in string formats are judged by reference predicates (lib/oracles/formats.py) on texts clearly inside or outside each format, not modelled in Coq', 'rule sets the compiler refuses as ill-formed (other error codes) are outside the '
+            assumptions=['regex is judged on a list of expressions and strings with obvious outcomes, not modelled; the built-in string formats are judged by reference predicates (lib/oracles/formats.py) on texts clearly inside or outside each format, not modelled in Coq', 'rule sets the compiler refuses as ill-formed (other error codes) are outside the '
                          'statement and are only counted', 'string length = number of characters (code points)'],
             explanation='rule semantics model with theorems; correspondence on boundary grids and random projects; independent exact oracle')
